@@ -287,6 +287,19 @@ Theorem C16_concat_flags_after_history : forall members h d raw,
 Proof. exact KV.Proofs.FlagsSelP.concat_flags_after_history. Qed.
 Print Assumptions C16_concat_flags_after_history.
 
+(* A v4 member (possibly opened with applycal, possibly with lost chunks): its samples show the DERIVED raw byte
+   (stored | data_lost | postproc, cf. C16_v4_raw_flags_regardless_of_selection) against the names selected on the whole. *)
+Theorem C16_concat_v4_member_sample : forall members h d (s : v4s),
+  KV.Model.FlagsSel.ends_whole h = true -> KV.Model.FlagsSel.p_fmt d = KV.Model.FlagsSel.FV4 -> 0 <= s_stored s < 256 ->
+  In d (KV.Model.FlagsSel.c_members (KV.Model.FlagsSel.cds_run KV.Model.FlagsSel.cur_plumbing flag_names
+          (KV.Model.FlagsSel.cds_open KV.Model.FlagsSel.cur_plumbing flag_names members) h)) ->
+  KV.Model.FlagsSel.member_flag d (v4_raw s)
+  = existsb (fun i => Z.testbit (spec_v4_raw s) i
+                      && Z.testbit (spec_mask_v34 (spec_wanted (KV.Model.FlagsSel.last_whole_f h (SelStr "all")))) i)
+            [0;1;2;3;4;5;6;7].
+Proof. exact KV.Proofs.FlagsSelP.concat_v4_member_sample. Qed.
+Print Assumptions C16_concat_v4_member_sample.
+
 (* HDF5 members: the weights are the stored ones iff a documented weight name is selected on the whole, else 1. *)
 Theorem C16_concat_weights_after_history : forall members h d w,
   KV.Model.FlagsSel.ends_whole h = true -> KV.Model.FlagsSel.p_fmt d <> KV.Model.FlagsSel.FV4 ->
